@@ -70,7 +70,7 @@ def run_one(sc):
     from rtflite import assemble_rtf
     files = sc["files"]
     tmp = tempfile.mkdtemp(prefix="rtflite-verif-asm-")
-    rec = {"id": sc["id"], "files": files}
+    rec = {"id": sc["id"], "files": files, "env": sc.get("env") or {}}
     try:
         paths = []
         inputs = []
@@ -92,6 +92,25 @@ def run_one(sc):
                            "lines": classify_lines(data)})
             paths.append(p)
         out = os.path.join(tmp, "out.rtf")
+        env = sc.get("env") or {}
+        if env.get("rerun") and nmissing == 0 and raw:
+            # an earlier call on the same paths while the first input held other bytes of the same length and
+            # the same time stamp: every call must read its inputs anew
+            st = os.stat(paths[0])
+            alt = raw[0].replace(b"f1r", b"g1r").replace(b"~T1~", b"~U1~")
+            if len(alt) == len(raw[0]) and alt != raw[0]:
+                with open(paths[0], "wb") as fh:
+                    fh.write(alt)
+                os.utime(paths[0], ns=(st.st_atime_ns, st.st_mtime_ns))
+                try:
+                    assemble_rtf(paths, os.path.join(tmp, "earlier.rtf"))
+                except Exception:  # noqa
+                    pass
+                with open(paths[0], "wb") as fh:
+                    fh.write(raw[0])
+                os.utime(paths[0], ns=(st.st_atime_ns, st.st_mtime_ns))
+        if env.get("alias") and nmissing == 0 and paths:
+            out = paths[0]          # the output path is also the first input (accumulating into one file)
         outcome = "ok"
         try:
             assemble_rtf(paths, out)
@@ -99,7 +118,7 @@ def run_one(sc):
             outcome = "FileNotFoundError"
         except Exception as ex:  # noqa
             outcome = "error:" + type(ex).__name__
-        wrote = os.path.exists(out)
+        wrote = os.path.exists(out) and not (env.get("alias") and outcome != "ok")
         ev = []
         obs = {"final_depth": 0, "min_depth": 0, "top_groups": 1, "trailing": 0, "signature": True, "lexerrs": 0}
         outdigest = ""
